@@ -32,20 +32,20 @@ CHECKS.update({
  "C10": hist("C10", "At every BeginBlock the fees collected in the previous block must reach exactly its proposer (or the pos module account for an unknown proposer) and every queued award must be minted exactly once to its address, supply moving by the same sum, queue empty afterwards."),
  "C12": dict(engine="opseq", category="model_checking",
    technique="exhaustive enumeration of write histories x pruning options on the real rootmulti/IAVL stores against a map model, with reopen and LoadVersion of every version after every commit",
-   text="Every write history over N IAVL substores + a transient store, V versions, 7 pruning options: after every commit the store is reopened on a copy of the database and every version 1..latest+1 is loaded; commit ids, hashes, full contents, pruning (error, never data) and transient emptiness are compared with a map model.",
+   text="Every write history over N IAVL substores + a transient store, V versions, 7 pruning options (store names s1.. and names that are prefixes of each other): before every commit every retained version is read on a CopyStore and through CacheMultiStoreWithVersion while the writes are pending; after every commit the store is reopened on a copy of the database and every version 1..latest+1 is loaded; at the end failed loads on the live handle, one handle moved to every retained older version and back, a second handle catching up, a substore mounted for the first time followed by four commits, and a reopen under every other pruning option / lazily / with the options set after loading. Commit ids, hashes, full contents, pruning (error, never data) and transient emptiness are compared with a map model.",
    design_ref="DESIGN.md §3 C12", note="MemDB stands in for the on-disk database; bounded by N<=3, V<=4 and the 6-element per-store write alphabet."),
  "C13": dict(engine="crashdb", category="fault_enumeration",
    technique="exhaustive crash-point enumeration over the logged durable writes of every Commit, closed under commutation of substore order",
-   text="For every write history and every commit, every crash state (any subset of substores fully committed, at most one between its save and prune batch, commit-info not yet written; plus the complete commit) is materialised, reopened, checked for a single consistent version, the interrupted block re-executed (same hash) and one more block committed.",
+   text="For every write history and every commit, every crash state (any subset of substores fully committed, at most one between its save and prune batch, commit-info not yet written; plus the complete commit) is materialised, reopened, checked for a single consistent version, the interrupted block re-executed (same hash) and one more block committed; a second fault model lets the k-th write of a Commit fail; the enumeration is repeated with the store reopened before every commit (eagerly, lazily, with the pruning options set after loading), with older versions loaded on a copy before every commit, with prefix-related store names, and at the application level (chain histories, also under a block gas limit and with historical queries).",
    design_ref="DESIGN.md §3 C13", note="A Batch.Write is atomic (goleveldb journal); torn batches and fsync ordering are outside the crash model; MemDB stands in for the on-disk database."),
  "C14": dict(engine="opseq", category="model_checking",
    technique="exhaustive enumeration of (history, store, key, height, prove) queries on the real rootmulti store with proof verification against recorded app hashes",
-   text="For every write history, between blocks and in the middle of a block, every store x key catalogue x height 0..latest+1 x prove is queried through rootmulti.Query; values are compared with the model snapshot of the height; proofs are verified with the repository's proof runtime against that height's app hash and must fail against other heights, other values and the opposite presence; pruned/future heights must serve nothing.",
+   text="For every write history, between blocks and in the middle of a block, every store x key catalogue x height 0..latest+1 x prove is queried through rootmulti.Query; values are compared with the model snapshot of the height; proofs are verified with the repository's proof runtime against that height's app hash and must fail against other heights, other values and the opposite presence; pruned/future heights must serve nothing and say so; every height is also read through CacheMultiStoreWithVersion; at the application level BaseApp.Query over a chain history (3 pruning options, after a restart, after module queries at every past height) and 11 store / module queries after every transaction of a block.",
    design_ref="DESIGN.md §3 C14", note="Only /key queries; BaseApp-level height defaulting is exercised by the chain harness; bounded by the key catalogue and N<=2, V<=4."),
  "C15": dict(engine="opseq", category="model_checking",
    technique="exhaustive enumeration of operation programs on stacks of real cachekv wrappers against an overlay-of-maps model",
    text="Every contract-respecting program of L operations (Get/Has/Set/Delete/drained iterations over 6 ranges x 2 directions/Write/CacheWrap/child Write/discard/open-step-close iterators with writes in between) on up to 3 nested cachekv wrappers over MemDB, IAVL and prefix parents; every return value, iteration sequence, parent content and final view compared with the model.",
-   design_ref="DESIGN.md §3 C15", note="Sequential part only so far (schedule exploration of concurrent Get/Set/Delete is added separately); bounded by L and the 4-key alphabet; no state merging."),
+   design_ref="DESIGN.md §3 C15", note="Sequential programs bounded by L and the 4-key alphabet, no state merging; the concurrent clause is decided by cmd/vsched: every interleaving of 24 scenarios (2-3 goroutines, 1-2 operations each on colliding keys) of the instrumented cachekv store up to 2 (quick) / 3 (thorough) preemptions, histories checked for linearizability with porcupine, plus a free-running -race pass of the same bodies."),
  "C16": dict(engine="opseq", category="model_checking",
    technique="exhaustive enumeration of operation programs through prefix/gas/trace wrappers and all their stackings against a map model, an independent cost table and the decoded trace",
    text="Prefix: all programs on 6 prefixes (incl. FF-terminated and empty) over parents preloaded with boundary-key subsets, parent content compared byte for byte. Gas: all programs re-run under every limit one below/at/above each cumulative charge and pre-charged to overflow at each charge. Trace: decoded JSON lines equal the operation list. All ordered stackings of prefix/gas/trace/cache for result transparency.",
@@ -56,17 +56,17 @@ CHECKS.update({
  "C01": hist("C01", "Differential exploration: every history within the bound is executed on a baseline instance and on 7-9 independently constructed variant instances (other store mount order, restart from the database after every commit / once in the middle, interleaved CheckTx/Simulate/Query traffic around every event, PruneEverything with and without restarts, keepRecent/keepEvery, syncable); InitChain validators and every BeginBlock/DeliverTx/EndBlock/Commit/Info response are compared byte for byte (Log excluded). A failure that does not reproduce on re-execution is itself reported (nondeterminism)."),
  "C03": dict(engine="chain+enum", category="exploration",
    technique="exhaustive finite matrices of transactions through the real CheckTx/DeliverTx of a live chain with an independent acceptance oracle",
-   text="Union of complete sub-products: message kind x signer account kind (ed25519, secp256k1, multisig, nested multisig) x signing variant (own key, other key of same/other type, foreign/swapped/short/duplicate/extra multisig components, other multisig, single key) x key source; every post-signing mutation; fee x fee-multiplier setting x message x signer; balance grid; memo bounds; replays after commit. Oracle: accept iff memo ok, key available, not indexed, fee >= required, signature verifies under Tendermint's primitives / positional N-of-N rule over the transaction's own sign bytes, key address == declared signer, balance >= fee; accepted => fee moves signer -> collector and nobody else pays; rejected => no balance moves.",
-   design_ref="DESIGN.md §3 C03", note="Exhaustive within the stated sub-products only. Sign bytes come from the repository's StdSignBytes (their canonicity is C20's subject). Ante acceptance is observed through result code, message/action event and fee-collector balance."),
- "C11": hist("C11", "Histories mixing context blocks (stake, begin-unstake, missed vote, evidence, raised minimum stake, transfer) with a catalogue of 72 judged calls (undecodable bytes, ValidateBasic / ante / handler failures and handler panics, CheckTx, Simulate, 26 Query forms) at every position of a block. Oracle: full raw-store-dump equality around every read-only call and every transaction refused before its handler; only signer -> fee collector may move for a transaction whose handler failed; panics outside recover are reported; a control run without the read-only calls must give byte-identical responses and app hashes."),
+   text="Union of complete sub-products: message kind x signer account kind (ed25519, secp256k1, multisig, nested multisig) x signing variant (own key, other key of same/other type, foreign/swapped/short/duplicate/extra multisig components, other multisig, single key) x key source; every post-signing mutation; fee x fee-multiplier setting (incl. products beyond 2^63) x message x signer; balance grid; memo bounds; replays after commit; multiplier changes and negative fee entries inside one block. Oracle: accept iff memo ok, key available, not indexed, fee >= required, signature verifies under Tendermint's primitives / positional N-of-N rule over the transaction's own sign bytes, key address == declared signer, balance >= fee; accepted => fee moves signer -> collector and nobody else pays; rejected => no balance moves.",
+   design_ref="DESIGN.md §3 C03", note="Exhaustive within the stated sub-products only. Transactions are signed over the harness's own rendering of the documented sign bytes (envelope and message part), never over the repository's StdSignBytes. Ante acceptance is observed through result code, message/action event and fee-collector balance."),
+ "C11": hist("C11", "Histories mixing context blocks (stake, begin-unstake, missed vote, evidence, raised minimum stake, transfer) with a catalogue of about 85 judged calls (undecodable bytes, ValidateBasic / ante / handler failures and handler panics, CheckTx, Simulate, 26 Query forms) at every position of a block, and the validator life-cycle messages from five non-initial states. Oracle: full raw-store-dump equality around every read-only call and every transaction refused before its handler; only signer -> fee collector may move for a transaction whose handler failed; panics outside recover are reported; a control run without the read-only calls must give byte-identical responses and app hashes."),
  "C17": hist("C17", "Matrix at depth 1 (22 parameter keys x 4 senders x 5 value kinds, MsgUpgrade x senders, DAO transfer/burn/unknown action x senders x amounts) and all hand-over pairs/triples at depth 2-3 executed as signed transactions on the real application in worker subprocesses. Oracle on the raw params store, all balances and supply: a parameter's stored bytes change only if the sender is the ACL owner of that key as of before the message, the result is OK and nothing else changed; DAO funds move only for the DAO owner, by exactly the amount, within the balance; every other store key unchanged."),
  "C19": dict(engine="enum+opseq", category="model_checking",
    technique="exhaustive verification matrices for single keys and multisignatures; exhaustive operation programs on real keybases against a map model",
-   text="Single keys: every (key, message, signature) triple of 4 keys x 5 messages, every single-bit flip / truncation / extension of every valid signature. Multisig: 4 key sets (mixed types, nested), every component list of length n-1..n+1 over correct/foreign/other-message/empty components, garbage encodings, builder outputs in every insertion order; VerifyBytes must equal the positional N-of-N rule evaluated with Tendermint's primitives. Keybase: every program of L operations over 25 operations (import, create, update, delete, sign, export, export+import; right/wrong/empty/unicode/1 KiB passphrases) on the in-memory keybase and a reduced alphabet on the directory-backed lazy keybase against a map model; failed operations must leave every stored record byte-identical.",
+   text="Single keys: every (key, message, signature) triple of 4 keys x 5 messages, every single-bit flip / truncation / extension of every valid signature. Multisig: 6 key sets (mixed types, nested, a key listed twice), every component list of length n-1..n+1 over correct/foreign/other-message/empty components, garbage encodings, builder outputs in every insertion order; VerifyBytes must equal the positional N-of-N rule evaluated with Tendermint's primitives. Keybase: every program of L operations over 35 operations (import, create, update, delete, sign, export, export+import, coinbase selection; right/wrong/empty/unicode/whitespace/1 KiB passphrases) on the in-memory keybase and a reduced alphabet on the directory-backed lazy keybase against a map model; failed operations must leave every stored record byte-identical; the full life cycle of an armored secp256k1 key in both keybases.",
    design_ref="DESIGN.md §3 C19", note="Tendermint's primitives are the trusted oracle; scrypt/AES-GCM are not re-verified; bounded by program length 2 (quick) / 3 (thorough)."),
  "C20": dict(engine="enum", category="exploration",
    technique="exhaustive catalogues with round-trip and all-pairs oracles plus exhaustive single-edit mutation of every encoding offered to the decoders and to a live application",
-   text="134 catalogue values (every message type x boundary fields, StdTx with every key kind, accounts, validators in every status, parameter sets, numerics at the range bounds, keys) through amino bare / length-prefixed / JSON round trips (absent == empty); sign bytes identical across binary and three JSON re-encodings and pairwise distinct for distinct signed content; every truncation and single-byte substitution of every encoding to its decoder (no panic; decoded values re-encode to a fixed point) and truncations/bit flips of transactions to CheckTx/DeliverTx of a live application; garbage catalogue for the JSON/hex decoders; all pairs of power-index / unstaking-queue keys for order and parse-back.",
+   text="about 140 catalogue values (every message type x boundary fields, StdTx with every key kind, accounts, validators in every status, parameter sets, numerics at the range bounds, keys) through amino bare / length-prefixed / JSON round trips (absent == empty); sign bytes identical across binary and three JSON re-encodings and pairwise distinct for distinct signed content; every truncation and single-byte substitution of every encoding to its decoder (no panic; decoded values re-encode to a fixed point) and truncations/bit flips of transactions to CheckTx/DeliverTx of a live application; the application's tx decoder on canonical bytes and on canonical bytes followed by a suffix; garbage catalogue for the JSON/hex decoders; all pairs of power-index / unstaking-queue keys for order and parse-back.",
    design_ref="DESIGN.md §3 C20", note="Exhaustive within the catalogue and single-edit mutations only."),
 })
 
